@@ -365,6 +365,13 @@ def roots(tier, seed):
              # azimuth sets that are NOT increasing (column order in the file must follow the object)
              ([["p2", "p4", "p3"], ["p1", "twopk", "p5"]], [90.0, 0.0]),
              ([["p2", "p4", "twopk", "p3"], ["p1", "p5", "p3", "q3"], ["p2", "p2", "p4", "p5"]], [120.0, 0.0, 60.0])]
+    # windows with two peaks, the higher of which the non-default peak options (height <= 3.6) exclude: the
+    # options decide WHICH peak is reported, at the default range as well as at a bounded one
+    asets.append(([["twopk", "twopk_r", "twopk"], ["twopk_r", "twopk", "twopk"]], [0.0, 90.0]))
+    # neighbouring azimuths a few hundredths of a degree apart, and azimuths that differ only in late digits
+    asets.append(([["p2", "p4", "p3"], ["p1", "twopk", "p5"], ["p3", "p3", "p4"], ["q3", "p2", "tie"]],
+                  [0.0, 44.95, 45.0, 45.05]))
+    asets.append(([["p2", "p4", "p3"], ["p1", "twopk", "p5"], ["p3", "p3", "p4"]], [10.0, 10.000001, 10.1]))
     dq = 2
     if tier == "quick":
         out.append(dict(kind="trad", real=True, depth=2))
@@ -413,7 +420,7 @@ def describe(tier):
              "and crafted curve sets carrying the meta of such results; the C05/C11 operation menus (range updates, "
              "frequency-domain, manual and time-domain rejections) are explored breadth-first to the root's depth "
              "and in every state with >= 2 accepted windows (per azimuth) the object is written and read back for "
-             "both write-time distributions; non-trivial/distinct = (kind, real?, shapes, azimuths)",
+             "both write-time distributions; non-trivial/distinct = (kind, real?, shapes, azimuths); azimuth sets include non-increasing ones, neighbours 0.05 degree apart and a two-peak set for which the peak options (height <= 3.6) select the lower peak at the default range; options dicts are re-used by the harness after the call",
         bounds=dict(depth="1-2 quick, 1-3 thorough"),
         exhaustive=True,
         assumptions=["np.loadtxt parses the %.18e columns exactly (round-trip of IEEE doubles)"])
